@@ -1,7 +1,146 @@
+(** C15 — only a token-factory denom's current admin can change its supply or control.
+    This file holds only the exported statements (each closed by [exact]). *)
 From Coq Require Import List Bool Arith ZArith String.
 Import ListNotations.
 Require Import Nib.C15.Model Nib.C15.Spec Nib.C15.Proofs.
+Local Open Scope Z_scope.
 
+(** THE STATEMENT TO THE LETTER — "the supply of a tf denom changes only through mint and burn
+    messages signed by that denom's current admin" — IS FALSE of the faithful model: MsgBurnNative
+    takes any denom, so a holder who is not the admin lowers the supply of a tf denom (witness:
+    Create @0 gold; Mint 60 to @3 by @0; BurnNative 25 by @3 — replayed on the implementation by
+    the harness opener, replay/C15-known-burnnative.json). *)
+Theorem C15_supply_changes_only_by_admin_mint_burn_refuted :
+  exists blocked s o s' d,
+    step blocked s o = Some s' /\ validate_denom d = true /\ supply s' d <> supply s d /\
+    admins s d <> Some (sender_of o) /\ ~ supply_mover s s' o d.
+Proof. exact strict_statement_refuted. Qed.
+Print Assumptions C15_supply_changes_only_by_admin_mint_burn_refuted.
+
+(** PARTIAL (what is missing: the MsgBurnNative disjunct must be allowed).  For every state, message
+    and denom: if the supply moved, the message was a Mint / Burn of that denom signed by its current
+    admin, moving it by exactly the stated positive amount — or a MsgBurnNative by which the signer
+    destroyed exactly that amount of its OWN balance. *)
+Theorem C15_supply_changes_only_by_admin_mint_burn_partial :
+  forall blocked s o s' d, step blocked s o = Some s' -> supply s' d <> supply s d ->
+  supply_mover s s' o d \/ own_native_burn s s' o d.
+Proof. exact supply_step. Qed.
+Print Assumptions C15_supply_changes_only_by_admin_mint_burn_partial.
+
+(** … and to the letter for every message other than MsgBurnNative. *)
+Theorem C15_supply_changes_only_by_admin_mint_burn_except_native :
+  forall blocked s o s' d, step blocked s o = Some s' ->
+  (forall sd dn dv amt, o <> BurnNative sd dn dv amt) ->
+  supply s' d <> supply s d -> supply_mover s s' o d.
+Proof. exact supply_step_strict. Qed.
+Print Assumptions C15_supply_changes_only_by_admin_mint_burn_except_native.
+
+(** Control: the admin of a denom changes only by a MsgChangeAdmin signed by the current admin
+    (to the successor it names) or by the creation of the denom (the embedded creator becomes the
+    first admin). *)
+Theorem C15_admin_handover_only_by_admin :
+  forall blocked s o s' d, inv s -> step blocked s o = Some s' -> admins s' d <> admins s d ->
+  (exists sender new nv, o = ChangeAdmin sender d new nv /\ admins s d = Some sender /\ admins s' d = Some new) \/
+  (exists sender sub, o = Create sender sub /\ d = tf_denom sender sub /\ admins s d = None /\
+     admins s' d = Some sender /\ parse_denom d = Some (sender, sub)).
+Proof. exact admin_step. Qed.
+Print Assumptions C15_admin_handover_only_by_admin.
+
+(** A denom is created only by the account whose address it embeds, which becomes its admin,
+    and only if it did not exist … *)
+Theorem C15_create_by_embedded_creator :
+  forall blocked s sender sub s', inv s -> step blocked s (Create sender sub) = Some s' ->
+  admins s (tf_denom sender sub) = None /\ admins s' (tf_denom sender sub) = Some sender /\
+  parse_denom (tf_denom sender sub) = Some (sender, sub) /\ meta s' (tf_denom sender sub) = true.
+Proof. exact create_step. Qed.
+Print Assumptions C15_create_by_embedded_creator.
+
+(** … and only once: after any history, any further creation of the same denom is rejected. *)
+Theorem C15_create_once_by_embedded_creator :
+  forall blocked s sender sub s1 h sender2 sub2,
+  inv s -> step blocked s (Create sender sub) = Some s1 ->
+  tf_denom sender2 sub2 = tf_denom sender sub ->
+  step blocked (fst (run blocked s1 h)) (Create sender2 sub2) = None.
+Proof. exact create_once. Qed.
+Print Assumptions C15_create_once_by_embedded_creator.
+
+(** Coins that are not token-factory denoms are never minted through the module and only the
+    signer's own balance can go down (MsgBurnNative). *)
+Theorem C15_non_tf_denoms_untouched :
+  forall blocked s o s' d, validate_denom d = false -> step blocked s o = Some s' ->
+  supply s' d <= supply s d /\
+  (forall a, bal s' a d <= bal s a d) /\
+  (forall a, bal s' a d < bal s a d -> a = sender_of o /\ exists dv amt, o = BurnNative a d dv amt).
+Proof. exact non_tf_step. Qed.
+Print Assumptions C15_non_tf_denoms_untouched.
+
+Theorem C15_non_tf_supply_never_increases_over_histories :
+  forall blocked d, validate_denom d = false -> forall h s, supply (fst (run blocked s h)) d <= supply s d.
+Proof. exact non_tf_history. Qed.
+Print Assumptions C15_non_tf_supply_never_increases_over_histories.
+
+(** Whose balance moves: the mint-to of an admin-signed Mint (never a blocked account), the
+    burn-from of an admin-signed Burn, or the signer of a native burn. *)
+Theorem C15_balance_moves_only_as_target :
+  forall blocked s o s' a d, step blocked s o = Some s' -> bal s' a d <> bal s a d ->
+  (exists sender dv amt to, o = Mint sender d dv amt to /\ admins s d = Some sender /\ a = resolve to sender /\
+      bal s' a d = bal s a d + amt /\ 0 < amt /\ mem_str a blocked = false) \/
+  (exists sender dv amt from, o = Burn sender d dv amt from /\ admins s d = Some sender /\ a = resolve from sender /\
+      bal s' a d = bal s a d - amt /\ 0 < amt /\ amt <= bal s a d /\ mem_str a blocked = false) \/
+  (exists dv amt, o = BurnNative a d dv amt /\ bal s' a d = bal s a d - amt /\ 0 < amt /\ amt <= bal s a d).
+Proof. exact balance_step. Qed.
+Print Assumptions C15_balance_moves_only_as_target.
+
+(** Nothing is created or destroyed on the side: one account's balance moves by exactly the
+    supply change. *)
+Theorem C15_conservation :
+  forall blocked s o s' d, step blocked s o = Some s' ->
+  exists a, (forall a', a' <> a -> bal s' a' d = bal s a' d) /\
+            bal s' a d - bal s a d = supply s' d - supply s d.
+Proof. exact conservation_step. Qed.
+Print Assumptions C15_conservation.
+
+(** Stale authority: after a hand-over the former admin is rejected from the very next message. *)
+Theorem C15_former_admin_rejected :
+  forall blocked s old d new nv s', step blocked s (ChangeAdmin old d new nv) = Some s' -> new <> old ->
+  admins s' d = Some new /\
+  (forall dv amt t, step blocked s' (Mint old d dv amt t) = None) /\
+  (forall dv amt t, step blocked s' (Burn old d dv amt t) = None) /\
+  (forall n2 nv2, step blocked s' (ChangeAdmin old d n2 nv2) = None) /\
+  (forall mv, step blocked s' (SetMeta old d mv) = None).
+Proof. exact handover_demotes. Qed.
+Print Assumptions C15_former_admin_rejected.
+
+(** Whoever is not the current admin (incl. everybody, for a renounced denom) is rejected. *)
+Theorem C15_not_admin_rejected :
+  forall blocked s sender d, admins s d <> Some sender ->
+  (forall dv amt t, step blocked s (Mint sender d dv amt t) = None) /\
+  (forall dv amt t, step blocked s (Burn sender d dv amt t) = None) /\
+  (forall n nv, step blocked s (ChangeAdmin sender d n nv) = None) /\
+  (forall mv, step blocked s (SetMeta sender d mv) = None).
+Proof. exact not_admin_rejected. Qed.
+Print Assumptions C15_not_admin_rejected.
+
+Theorem C15_rejected_changes_nothing :
+  forall blocked s o, snd (deliver blocked s o) = false -> fst (deliver blocked s o) = s.
+Proof. exact rejected_changes_nothing. Qed.
+Print Assumptions C15_rejected_changes_nothing.
+
+(** The registry invariant the theorems above assume holds along every history. *)
+Theorem C15_registry_invariant_preserved :
+  forall blocked h s, inv s -> inv (fst (run blocked s h)).
+Proof. exact run_inv. Qed.
+Print Assumptions C15_registry_invariant_preserved.
+
+(** Link to the trace predicate: snapshots of the model around any message satisfy the per-message
+    clauses of [step_P] (lenient form), for any tracked key set that contains the created denom. *)
+Theorem C15_model_satisfies_property_core :
+  forall blocked ds bs s o, inv s -> (forall sender sub, o = Create sender sub -> In (tf_denom sender sub) ds) ->
+  step_core false (snap_keys ds bs s) o (snd (deliver blocked s o)) (snap_keys ds bs (fst (deliver blocked s o))).
+Proof. exact model_step_core. Qed.
+Print Assumptions C15_model_satisfies_property_core.
+
+(** The boolean checker run on implementation traces is sound for [P] (strict and lenient). *)
 Theorem C15_checker_sound : forall strict t prev, Pb strict prev t = true -> P strict prev t.
 Proof. exact Pb_sound. Qed.
 Print Assumptions C15_checker_sound.
